@@ -4,7 +4,7 @@ import ErgVerif.C05.Model
 Driver for C05 (`ergmodel_c05`): the Lean injectors produce the test inputs.
 
 stdin : id \t (prog <stmt>…) \t -
-        stmt ::= (defv e) | (print e) | (fun1 P e) | (fun2 P Q e) | (fun1d P d e) | (lam P e) | (forp n e)
+        stmt ::= (defv e) | (print e) | (fun1 P e) | (fun2 P Q e) | (fun1d P d e) | (lam P e) | (forp n e) | (printEnd e d) | (defvK f a b)
         e    ::= (lit T v) | (var x) | (bin op l r) | (ite c a b) | (call0 f) | (call1 f a) | (call2 f a b) | (attr e a)
         T, P ::= nat | int | bool | str        op ::= add | sub | mul | lt | and
 stdout: id \t (base <welltyped> <size> "<erg source>") (inj <injector> <stmt> <slot> (<path>) <spec-illtyped> <known class or -> "<erg source>")… \t ok|viol:… \t 0
@@ -64,6 +64,12 @@ def stmtOf : Sexp → Option Stmt
   | .list [.atom "forp", n, e] => match Sexp.atomNat? n, exprOf e with
     | some n, some e => some (.forp n e)
     | _, _ => none
+  | .list [.atom "printEnd", e, d] => match exprOf e, exprOf d with
+    | some e, some d => some (.printEnd e d)
+    | _, _ => none
+  | .list [.atom "defvK", f, a, b] => match Sexp.atomNat? f, exprOf a, exprOf b with
+    | some f, some a, some b => some (.defvK f a b)
+    | _, _, _ => none
   | _ => none
 
 /-! ### Erg text -/
@@ -113,6 +119,10 @@ def progText : Nat → Nat → List Stmt → List String
     ("f" ++ toString f ++ "(p: " ++ tyName p ++ " := " ++ exprText g [] d ++ ") = " ++ exprText g ["p"] b) :: progText g (f + 1) rest
   | g, f, .lam p b :: rest =>
     ("f" ++ toString f ++ " = (p: " ++ tyName p ++ ") -> " ++ exprText g ["p"] b) :: progText g (f + 1) rest
+  | g, f, .printEnd e d :: rest =>
+    ("print!(" ++ exprText g [] e ++ ", end := " ++ exprText g [] d ++ ")") :: progText g f rest
+  | g, f, .defvK fn a b :: rest =>
+    ("v" ++ toString g ++ " = f" ++ toString fn ++ "(" ++ exprText g [] a ++ ", q := " ++ exprText g [] b ++ ")") :: progText (g + 1) f rest
   | g, f, .forp h b :: rest =>
     ("for! 0..<" ++ toString h ++ ", i =>\n    print!(" ++ exprText g ["i"] b ++ ")") :: progText g f rest
 
